@@ -48,11 +48,52 @@ def complement_norm(tree: ast.AST) -> ast.AST:
     return _Complement().visit(tree)
 
 
+_effects = {}
+
+
+def effects(repo):
+    from engine.effects import Effects
+
+    e = _effects.get(id(repo))
+    if e is None:
+        _effects.clear()
+        e = _effects[id(repo)] = Effects(repo, resolve_call)
+        e.solve()
+    return e
+
+
+def _call_writes(repo):
+    """(fi, call) -> local names of fi whose object a repository callee writes"""
+
+    def cw(fi, call):
+        callee = resolve_call(repo, fi, call)
+        if callee is None:
+            return ()
+        eff = effects(repo)
+        sm = eff.summaries.get(callee.qualname)
+        if sm is None or not sm.writes:
+            return ()
+        try:
+            b = eff._bind(call, callee, fi)
+        except Exception:
+            return ()
+        out = set()
+        for prm in sm.writes:
+            a = b.get(prm)
+            while isinstance(a, (ast.Subscript, ast.Attribute)):
+                a = a.value
+            if isinstance(a, ast.Name):
+                out.add(a.id)
+        return out
+
+    return cw
+
+
 def expander(repo) -> Expander:
     e = _ex.get(id(repo))
     if e is None:
         _ex.clear()
-        e = _ex[id(repo)] = Expander(repo, resolve_call)
+        e = _ex[id(repo)] = Expander(repo, resolve_call, call_writes=_call_writes(repo))
         e.post = complement_norm
     return e
 
@@ -232,3 +273,30 @@ def norm_literal_guard(conds, var_texts=("norm", "self.norm")) -> Optional[str]:
     if pos:
         return pos[0]
     return ("!" + ",".join(sorted(neg))) if neg else None
+
+
+def defs_texts(repo, fi: FunctionInfo, name: str) -> List[Tuple[ast.stmt, str]]:
+    """(statement, expanded text of the value bound) for every statement of `fi`
+    that binds the local `name` by assignment (tuple unpacking followed by
+    position, helpers inlined) -- each read as of its own site"""
+    ex = expander(repo)
+    rd = ex.rd(fi)
+    out = []
+    for s in sorted((x for x in own_nodes(fi.node) if isinstance(x, (ast.Assign, ast.AnnAssign))), key=lambda x: x.lineno):
+        tgts = s.targets if isinstance(s, ast.Assign) else [s.target]
+        binds = False
+        for t in tgts:
+            elts = t.elts if isinstance(t, (ast.Tuple, ast.List)) else [t]
+            if any(isinstance(e, ast.Name) and e.id == name for e in elts):
+                binds = True
+        if not binds:
+            continue
+        dn = rd.node_of(s)
+        r = ex._name_def(ast.Name(id=name, ctx=ast.Load()), s, dn, fi, {}, 0, set()) if dn is not None else None
+        if r is None:
+            out.append((s, f"<{src_of(s)}>"))
+            continue
+        if ex.post is not None:
+            r = ex.post(r)
+        out.append((s, ast.unparse(norm.canon(r, rename=False))))
+    return out
